@@ -2,6 +2,7 @@ import Octo.Model.Crypto
 import Octo.Model.Framed
 import Octo.Model.Addr
 import Octo.Model.Nonce
+import Octo.Model.Stream
 import Octo.Gen.Consts
 /-!
   Model of the Shadowsocks TCP codec: `codec/shadowsocks.rs` (Authenticator, ChunkEncoder,
@@ -212,6 +213,14 @@ def encode (C : Crypto) (ctx : Ctx) (s : Sess) (e : Enc) (item : Bytes) (r : Enc
       let (w, a) := encPayload C a 0xffff msg
       (s.salt ++ eih ++ w, ⟨some a⟩)
 
+/-- every write of a session through `encode`, in order: the bytes put on the wire -/
+def encodeAll (C : Crypto) (ctx : Ctx) (s : Sess) : Enc → List (Bytes × EncRand) → Bytes × Enc
+  | e, [] => ([], e)
+  | e, (w, r) :: ws =>
+    let (x, e) := encode C ctx s e w r
+    let (y, e) := encodeAll C ctx s e ws
+    (x ++ y, e)
+
 /-- decoder state: `Option<ChunkDecoder>` + the session fields the decoder writes -/
 structure Dec where
   chunk : Option ChunkDec := none
@@ -312,5 +321,66 @@ def unit (C : Crypto) (ctx : Ctx) (env : DecEnv) (d : Dec) (b : Bytes) : Fr.Step
     | .need => .need
     | .fail cd' n => .fail { d with chunk := some cd' } n
     | .take cd' n o => .take { d with chunk := some cd' } n (o.map .byte)
+
+/-! ### call level: what one `decode` call returns -/
+
+/-- `AEADCipherCodec::decode`: `Ok(None)` on an empty buffer; with a chunk decoder, every complete
+chunk, `None` if that is nothing; the legacy salt step falls through to the chunks behind it; the
+2022 header step is one call of its own and returns `Some(via)` even when `via` is empty. -/
+def cipherDecode (C : Crypto) (ctx : Ctx) (env : DecEnv) (d : Dec) (b : Bytes) : Dec × Bytes × Res (List Ev) :=
+  if b.isEmpty then (d, b, .more) else
+  if d.chunk.isNone ∧ ctx.kind.is2022 then
+    match init2022 C ctx env d b with
+    | .need => (d, b, .more)
+    | .fail d' n => (d', b.drop n, .err)
+    | .take d' n o => (d', b.drop n, .ok o)
+  else
+    let r := Fr.run (unit C ctx env) d b
+    if r.failed then (r.st, r.buf, .err)
+    else if (Ev.bytes r.out).isEmpty then (r.st, r.buf, .more)
+    else (r.st, r.buf, .ok r.out)
+
+/-- client `PayloadCodec::decode` -/
+def clientCall (C : Crypto) (ctx : Ctx) (env : DecEnv) (d : Dec) (b : Bytes) : Call Dec :=
+  match cipherDecode C ctx env d b with
+  | (d', b', .ok o) => ⟨d', b', .ok ⟨.data, Ev.bytes o, none⟩⟩
+  | (d', b', .more) => ⟨d', b', .more⟩
+  | (d', b', .err) => ⟨d', b', .err⟩
+  | (d', b', .panic) => ⟨d', b', .panic⟩
+
+/-- server `PayloadCodec` state: codec state, `State::{Header, Body}`, the plaintext kept while a
+legacy target address is still incomplete -/
+structure SrvDec where
+  dec : Dec
+  header : Bool := true
+  pending : Bytes := []
+deriving Repr
+
+/-- server `PayloadCodec::decode` -/
+def serverCall (C : Crypto) (ctx : Ctx) (env : DecEnv) (s : SrvDec) (b : Bytes) : Call SrvDec :=
+  match cipherDecode C ctx env s.dec b with
+  | (d', b', .more) => ⟨{ s with dec := d' }, b', .more⟩
+  | (d', b', .err) => ⟨{ s with dec := d' }, b', .err⟩
+  | (d', b', .panic) => ⟨{ s with dec := d' }, b', .panic⟩
+  | (d', b', .ok o) =>
+    let dst := Ev.bytes o
+    if ¬ s.header then ⟨{ s with dec := d' }, b', .ok ⟨.data, dst, none⟩⟩ else
+    match d'.sess.address with
+    | some a => ⟨{ s with dec := d', header := false }, b', .ok ⟨.connect, dst, some a⟩⟩
+    | none =>
+      -- legacy: the target address leads the decrypted stream
+      let pend := s.pending ++ dst
+      if pend.length < 2 then ⟨{ s with dec := d', pending := pend }, b', .more⟩ else
+      match Socks5Addr.tryDecodeAt pend 0 with
+      | .ok need =>
+        if pend.length < need then ⟨{ s with dec := d', pending := pend }, b', .more⟩ else
+        match Socks5Addr.decode pend with
+        | .ok (a, rest) =>
+          ⟨{ dec := { d' with sess := { d'.sess with address := some a } }, header := false, pending := [] }, b',
+            .ok ⟨.connect, rest, some a⟩⟩
+        | .panic => ⟨{ s with dec := d', pending := pend }, b', .panic⟩
+        | _ => ⟨{ s with dec := d', pending := pend }, b', .err⟩
+      | .panic => ⟨{ s with dec := d', pending := pend }, b', .panic⟩
+      | _ => ⟨{ s with dec := d', pending := pend }, b', .err⟩
 
 end Octo.Ss
